@@ -74,6 +74,7 @@ THEOREMS = [
     "Verif.C11.generating_parameters_within_bounds",
     "Verif.C11.twin_within_bounds",
     "Verif.C11.analytic_lorentzian_exact_of_two_frequencies",
+    "Verif.C11.active_recovers_generating_sensitivity",
 ]
 RULE = (
     "corpus (8 representative + the open finding F-C11-1) + exhaustive option matrix (hydro x axial x distance{None, at the "
@@ -1803,6 +1804,35 @@ def drive_case(rng, stream, quick):
     }
 
 
+def fit_scope():
+    """deterministic small scope of the objective tie (c11.chi2): hydro x surface x every filter shape x {noise-free, one
+    fixed noise realisation}, independent of the seed"""
+    for hydro, dist, (fast, fixed), noisy in itertools.product(
+        (False, True), (None, 7.0), ((False, None), (True, None), (False, [9000.0, None]), (False, [None, 0.25]), (False, [12000.0, 0.5])), (False, True)
+    ):
+        o = base_opts(d=1.1, visc=0.00095, temp=24.0, hydro=hydro, dist=dist, fast=fast, rho_s=None)
+        fdiode = fixed[0] if fixed is not None and fixed[0] is not None else 11000.0
+        alpha = fixed[1] if fixed is not None and fixed[1] is not None else 0.35
+        npts = 180
+        yield {
+            "stream": "scope-fit",
+            "op": "fit",
+            "o": o,
+            "fixed": fixed,
+            "fc": 1400.0,
+            "D": 0.04,
+            "fdiode": fdiode,
+            "alpha": alpha,
+            "fmin": 100.0,
+            "step": (23000.0 - 100.0) / npts,
+            "npts": npts,
+            "nblock": 150,
+            "dur": 150 / ((23000.0 - 100.0) / npts),
+            "noisy": noisy,
+            "subseed": 12345,
+        }
+
+
 def drive_scope():
     """deterministic small scope of the peak search of estimate_driving_input_parameters (independent of the seed)"""
     rate, n = 10000.0, 20000
@@ -1923,6 +1953,7 @@ def cases(tier, rng):
     r = rng.fork("fit")
     for i in range(80 if quick else 1200):
         yield fit_case(r, "exploration-fit", quick, noisy=(i % 2 == 1))
+    yield from fit_scope()
     r = rng.fork("drive")
     for _ in range(30 if quick else 400):
         yield drive_case(r, "exploration-drive", quick)
